@@ -200,9 +200,10 @@ def main():
 
     broken = []   # obligations / ties that no longer check: (kind, what)
     # 1. tables
-    lock = core.build_lock()
+    no_tables = bool(os.environ.get('VERIF_NO_TABLES'))   # (tools/mutate.py: many scratch trees in parallel, never touch lean/)
+    lock = None if (no_tables and a.no_build) else core.build_lock()
     try:
-        tables = prop.extract_tables(core.REPO)
+        tables = {} if no_tables else prop.extract_tables(core.REPO)
     except Exception as e:
         tables = {}
         broken.append(('table-extraction', '%s: %r' % (pid, e)))
@@ -261,7 +262,8 @@ def main():
                     infra('leanchecker rejected TTV.Props.%s: %s' % (pid, out2[-500:]))
                 leanchecker = 'ok'
 
-    lock.close()
+    if lock is not None:
+        lock.close()
     if not os.path.exists(core.DRIVER):
         infra('driver executable missing; run the setup command first')
 
